@@ -11,13 +11,14 @@ RULE = ("(a) library stages: each generated input (1-6 chromosomes incl. prefix 
 NAMESETS = [["Chr1", "Chr10", "Chr2", "Chr100", "Chr11", "Chr3"], ["c1", "c2", "c3", "c4", "c5", "c6"], ["A", "B", "AB", "A_1", "B1", "A1"]]
 
 
-def summarize(rep):
-    """everything C10 says must be identical between runs"""
+def summarize(rep, genome="G"):
+    """everything C10 says must be identical between runs (file names without the genome id, which some runs vary)"""
     if not rep.get("ok"):
         return {"failed": rep.get("exc") or rep.get("log", "")[-300:]}
     out = {}
     for f in sorted(rep["files"], key=lambda f: f["file"]):
-        out[f["file"]] = {"genes": f["genes"], "windows": f["windows"], "orders": f["orders"], "supers": f["supers"],
+        name = f["file"][len(genome) + 1:] if f["file"].startswith(genome + "_") else f["file"]
+        out["G_" + name] = {"genes": f["genes"], "windows": f["windows"], "orders": f["orders"], "supers": f["supers"],
                           "cells": sorted((tuple(c[:6]), c[6]) for c in f["cells"])}
     return out
 
@@ -117,13 +118,16 @@ def run(chk):
     load = [subprocess.Popen([sys.executable, "-c", "while True: pass"], start_new_session=True) for _ in range(16)]
     try:
         ncli = 2 if chk.tier == "quick" else 8
-        for c in cases[:ncli]:
+        for ci_, c in enumerate(cases[:ncli]):
             runs = []
+            # every second input under a genome id with dots and underscores of its own (it is part of every file name)
+            gid = "G" if ci_ % 2 == 0 else "Gen_v1.0"
             for cfg in cli_configs(chk.tier):
-                rep = cli.run_case_cli(c, nproc=cfg.get("nproc"), flags=cfg.get("flags", ()), env=cfg.get("env"), timeout=300)
+                rep = cli.run_case_cli(c, nproc=cfg.get("nproc"), flags=cfg.get("flags", ()), env=cfg.get("env"), genome=gid, timeout=300)
                 chk.cov["evaluations"] += 1
                 chk.count("cli_runs")
-                runs.append((cfg, rep, summarize(rep)))
+                chk.count("cli_genome_id:" + gid)
+                runs.append((dict(cfg, genome=gid), rep, summarize(rep, gid)))
             fails = []
             for cfg, rep, s_ in runs:
                 if rep["rc"] != 0:
@@ -138,7 +142,7 @@ def run(chk):
             if fails:
                 nv += 1
                 chk.violation("CLI runs of the same input differ (or fail) across worker counts / single-process mode / hash seeds / load",
-                              {"case": {k: c[k] for k in ("genes", "tes", "windows")}, "failures": fails[:4]})
+                              {"case": {k: c[k] for k in ("genes", "tes", "windows")}, "genome": gid, "failures": fails[:4]})
     finally:
         for p in load:
             try:
@@ -157,7 +161,8 @@ def replay(chk, rp):
     fails = [d for d in (diff_runs(sums[0], s_) for s_ in sums[1:]) if d]
     fails += [{"kind": "failed", "detail": s_["failed"]} for s_ in sums if "failed" in s_]
     if not fails:       # found through the command line: worker counts / hash seeds
-        runs = [summarize(cli.run_case_cli(c, nproc=cfg.get("nproc"), flags=cfg.get("flags", ()), env=cfg.get("env"), timeout=300))
+        gid = rp.get("genome", "Gen_v1.0")
+        runs = [summarize(cli.run_case_cli(c, nproc=cfg.get("nproc"), flags=cfg.get("flags", ()), env=cfg.get("env"), genome=gid, timeout=300), gid)
                 for cfg in cli_configs("thorough")]
         fails = [d for d in (diff_runs(runs[0], s_) for s_ in runs[1:]) if d] + [{"kind": "failed", "detail": s_["failed"]} for s_ in runs if "failed" in s_]
     print(json.dumps({"failures": fails[:5]}, indent=1, default=str))
